@@ -201,6 +201,14 @@ pub fn run(r: &mut Report) {
         if let Err(p) = no_panic(|| { let _ = in_toto_verify(&lay, owner_keys(&[&owner]), d.path().to_str().unwrap(), None); }) { panics.push(format!("sub-layout without directory: {}", p)); }
     }
     r.case("fuzz-link-directory", json!({"inputs": n}), "no panic", format!("{:?}", panics), panics.is_empty());
+    // delegations that name themselves (the sub-layout's only step is the delegated step again, same functionary), with and without
+    // the dedicated sub-directory: verification must come back with a verdict.  Run in a child process, because the failure mode is
+    // unbounded recursion (a stack overflow aborts the process and cannot be caught)
+    {
+        let out = std::process::Command::new(std::env::current_exe().unwrap()).arg("_SELF_DELEGATION").output();
+        let (ok, obs) = match out { Ok(o) => (o.status.success(), format!("status {:?}; {}", o.status, String::from_utf8_lossy(&o.stderr).chars().take(200).collect::<String>())), Err(e) => (false, format!("cannot start child: {}", e)) };
+        r.case("self-naming-delegation-terminates", json!({"scenarios": 4}), "a verdict (child process exits normally)", obs, ok);
+    }
 
     // ---- 4. attestation statements and predicates ----
     let mut n = 0u64; let mut panics: Vec<String> = vec![];
@@ -221,4 +229,23 @@ pub fn run(r: &mut Report) {
         if let Err(p) = no_panic(|| serde_json::from_str::<PredicateWrapper>(&t).map(|s| { let _ = serde_json::to_string(&s); })) { if panics.len() < 5 { panics.push(format!("predicate: {} :: {}", p, &t[..t.len().min(160)])); } }
     }
     r.case("fuzz-attestations", json!({"inputs": n}), "no panic", format!("{:?}", panics), panics.is_empty());
+}
+
+/// child-process body of `self-naming-delegation-terminates`
+pub fn self_delegation_child() {
+    let owner = key(1); let ka = key(2);
+    for (with_dir, depth_chain) in [(false, false), (true, false), (false, true), (true, true)] {
+        let d = tmpdir();
+        let inner_name = if depth_chain { "b" } else { "a" };
+        let sub = signed_layout(&layout(vec![step(inner_name, 1, &[&ka], allow_all(), allow_all())], vec![], &[&ka], 30), &[&ka]);
+        write_link(d.path(), "a", ka.key_id(), &sub);
+        if depth_chain { write_link(d.path(), "b", ka.key_id(), &signed_layout(&layout(vec![step("a", 1, &[&ka], allow_all(), allow_all())], vec![], &[&ka], 30), &[&ka])); }
+        if with_dir {
+            let sd = d.path().join(format!("a.{}", ka.key_id().prefix()));
+            std::fs::create_dir_all(&sd).unwrap();
+            write_link(&sd, inner_name, ka.key_id(), &sub);       // the sub-directory again holds a delegation, without a directory of its own
+        }
+        let lay = signed_layout(&layout(vec![step("a", 1, &[&ka], allow_all(), allow_all())], vec![], &[&ka], 30), &[&owner]);
+        let _ = no_panic(|| in_toto_verify(&lay, owner_keys(&[&owner]), d.path().to_str().unwrap(), None));
+    }
 }
